@@ -86,8 +86,7 @@ def tripped_latch(ctx, repo, rule="C30.D2-tripped-follows-decision"):
         ctx.ob(rule, cname(call, None, "every exit of the suspend branch (raising ones too) has set the latch"), w is None,
                "" if w is None else "the suspend branch can be left - e.g. by the RuntimeError when the event cannot be created in time - without the suspender being marked "
                "tripped: the signal is in the suspend condition but the next plan is not held", nontrivial=True, witness=w[-6:] if w else None, where=where(call, g.nodes[t].stmt))
-    if not tests:
-        ctx.ob(rule, cname(call, None, "suspend branch"), False, "the test on _should_suspend(value) was not found (anchor lost)", where=where(call, call.node))
+    ctx.require(tests, "anchor vanished: the branch of SuspenderBase.__call__ on self._should_suspend(value)")
     consts = {s.value.value for s in A.walk_stmts(call.node.body) if isinstance(s, ast.Assign) and any(A.chain(t) == "self._tripped" for t in A.targets_of(s))
               and isinstance(s.value, ast.Constant)}
     ok = consts == {True, False}
